@@ -1,6 +1,8 @@
 package rules
 
 import (
+	"golang.org/x/tools/go/types/typeutil"
+	"sort"
 	"fmt"
 	"go/ast"
 	"go/constant"
@@ -33,7 +35,11 @@ func checkC14(c *Ctx) {
 	c.c14Export()
 	c.c14Import()
 	c.c14Register()
+	c.c14InitRegistration()
 	c.c14Determinism()
+	// "exactly the exporter's entries": every Dump writes and every Restore reads the same stream — one gob record per entry and
+	// nothing else — so that any backend can import from any other (C13 R13.2)
+	c.borrowKinds("C13", func() { checkC13(c) }, "R14.2", "Dump/Restore:one-wire-format", []string{"R13.2", "R13.3"}, "dump-re-encodes", "dump-count", "wire-format", "dump-skips-entry")
 	c.rangeVarCapturedByGo("R14.2", func(name string) bool { return strings.HasPrefix(name, "HTTPTransfer.") })
 }
 
@@ -342,6 +348,81 @@ func (c *Ctx) c14Import() {
 		r.Unknown("R14.2", "HTTPTransfer.Import", fmt.Sprintf("vacuous: %d restoring iterations, %d skipping iterations", nRestore, nSkip))
 	} else if !hasViolation(r.Obls, "R14.2", "HTTPTransfer.Import") {
 		r.OK("R14.2", "HTTPTransfer.Import", fmt.Sprintf("%d restoring iterations gated by status 200, %d skipping", nRestore, nSkip))
+	}
+}
+
+// c14InitRegistration: the types every decoded-JSON value is made of (map[string]interface{}, []interface{}) are registered with
+// encoding/gob when the package is loaded — in an init function or a package-level initialiser, not lazily on the first
+// GobRegister: a process that caches such values without registering types of its own could otherwise neither dump nor
+// restore them although both peers agree on the types hash.
+func (c *Ctx) c14InitRegistration() {
+	r := c.R
+	info := c.Pkg.TypesInfo
+	want := map[string]bool{"map[string]interface{}": false, "[]interface{}": false}
+	var roots []*ast.FuncDecl
+	c.eachFuncDecl(func(fd *ast.FuncDecl, fn *types.Func) {
+		if fd.Recv == nil && fd.Name.Name == "init" {
+			roots = append(roots, fd)
+		}
+	})
+	scan := func(n ast.Node) {
+		ast.Inspect(n, func(x ast.Node) bool {
+			call, ok := x.(*ast.CallExpr)
+			if !ok || len(call.Args) != 1 {
+				return true
+			}
+			if fn, _ := typeutil.Callee(info, call).(*types.Func); fn == nil || pw.FuncName(fn) != "encoding/gob.Register" && pw.FuncName(fn) != "gob.Register" {
+				return true
+			}
+			t := types.TypeString(info.TypeOf(call.Args[0]), nil)
+			t = strings.ReplaceAll(t, "any", "interface{}")
+			if _, ok := want[t]; ok {
+				want[t] = true
+			}
+			return true
+		})
+	}
+	// package-level initialisers and what they call
+	for _, f := range c.Pkg.Syntax {
+		for _, d := range f.Decls {
+			gd, ok := d.(*ast.GenDecl)
+			if !ok || gd.Tok != token.VAR {
+				continue
+			}
+			for _, sp := range gd.Specs {
+				vs := sp.(*ast.ValueSpec)
+				for _, v := range vs.Values {
+					scan(v)
+					ast.Inspect(v, func(x ast.Node) bool {
+						if call, ok := x.(*ast.CallExpr); ok {
+							if fn, _ := typeutil.Callee(info, call).(*types.Func); fn != nil && fn.Pkg() == c.Pkg.Types {
+								if fd := c.declOf(fn); fd != nil {
+									roots = append(roots, fd)
+								}
+							}
+						}
+						return true
+					})
+				}
+			}
+		}
+	}
+	for _, root := range roots {
+		for _, fd := range c.reachBodies(root, 2) {
+			scan(fd.Body)
+		}
+	}
+	var missing []string
+	for t, ok := range want {
+		if !ok {
+			missing = append(missing, t)
+		}
+	}
+	sort.Strings(missing)
+	if len(missing) > 0 {
+		r.Bad("R14.3", "package init", "common-types-not-registered-at-load", "-", "not registered with encoding/gob when the package is loaded: "+strings.Join(missing, ", ")+" — values decoded from JSON can then be dumped/restored only after somebody called GobRegister", nil)
+	} else {
+		r.OK("R14.3", "package init", "map[string]interface{} and []interface{} are registered with encoding/gob at package load")
 	}
 }
 
